@@ -305,6 +305,24 @@ impl C16 {
             }
             expected.push((name.clone(), v));
         }
+        // now and then one supplied value is ill-formed for its declared type: the request must be refused,
+        // whichever map carries it
+        let mut poisoned: Option<(String, &'static str, String)> = None;
+        if !expected.is_empty() && rng.chance(1, 5) {
+            let (name, _) = expected[rng.usize(expected.len())].clone();
+            let ty = declared.iter().find(|(d, _)| *d == name).map(|(_, t)| t.clone());
+            if let Some(ty @ (Type::Int | Type::Bool | Type::Bytes | Type::Address | Type::UtxoRef)) = ty {
+                let (bad, shape) = ill_formed(&ty, rng);
+                let via = if env.contains_key(&name) { "env" } else { "args" };
+                if via == "env" {
+                    env.insert(name.clone(), bad);
+                } else {
+                    args.insert(name.clone(), bad);
+                }
+                ctx.count(&format!("requests/ill-formed-value-via-{via}"));
+                poisoned = Some((name, via, format!("{}:{shape}", type_name(&ty))));
+            }
+        }
         // undeclared extras
         for k in 0..rng.usize(3) {
             let target = if rng.bool() { &mut args } else { &mut env };
@@ -347,7 +365,13 @@ impl C16 {
                 ctx.count("requests/ok");
                 // exactly the declared parameters the request supplied, coerced by their declared types
                 if doc.get("args").is_some() && doc["tir"].is_object() {
+                    if let Some((name, via, shape)) = &poisoned {
+                        ctx.violation(format!("request:ill-formed-value-accepted:{via}"), detail(json!({"parameter": name, "shape": shape, "in_returned_map": map.contains_key(name)})));
+                    }
                     for (name, v) in &expected {
+                        if matches!(&poisoned, Some((p, _, _)) if p == name) {
+                            continue;
+                        }
                         match map.get(name) {
                             None => {
                                 let via = if env.contains_key(name) { "env" } else { "args" };
@@ -377,7 +401,7 @@ impl Property for C16 {
         "C16"
     }
     fn rule(&self) -> String {
-        "coercions: for each argument type (Int, Bool, Bytes, Address, UtxoRef, Undefined) a random value v (ints from the i128 boundary set, byte strings of 0..100 bytes, every Shelley address kind, refs with index up to u32::MAX) and each admissible encoding e (decimal string, JSON number below 2^64, 0x + 32 hex digits two's complement; true/false, 0/1, \"true\"/\"false\"; hex with and without 0x in either case, {content|bytecode|payload, contentType|encoding: hex|base64}; bech32 / hex; txid#index): from_json(e(v), type) = v; per type 4..7 ill-formed shapes must be refused; random JSON against every type must not panic. requests: templates lowered from generated programs (declared types known) or random IR trees, declared parameters split between `args` and `env`, some missing, undeclared extras, envelopes intact or corrupted in content / encoding / version (10 variants), or a random JSON document: serde_json::from_value::<ResolveParams> + parse_resolve_request must return Ok or Err and, when Ok, the argument map must equal the declared subset of args + env coerced by the declared types. Non-trivial: every case; distinct = distinct JSON documents.".into()
+        "coercions: for each argument type (Int, Bool, Bytes, Address, UtxoRef, Undefined) a random value v (ints from the i128 boundary set, byte strings of 0..100 bytes, every Shelley address kind, refs with index up to u32::MAX) and each admissible encoding e (decimal string, JSON number below 2^64, 0x + 32 hex digits two's complement; true/false, 0/1, \"true\"/\"false\"; hex with and without 0x in either case, {content|bytecode|payload, contentType|encoding: hex|base64}; bech32 / hex; txid#index): from_json(e(v), type) = v; per type 4..7 ill-formed shapes must be refused; random JSON against every type must not panic. requests: templates lowered from generated programs (declared types known) or random IR trees, declared parameters split between `args` and `env`, some missing, undeclared extras, envelopes intact or corrupted in content / encoding / version (10 variants), or a random JSON document: serde_json::from_value::<ResolveParams> + parse_resolve_request must return Ok or Err and, when Ok, the argument map must equal the declared subset of args + env coerced by the declared types; one request in five carries an ill-formed value for a declared parameter (under args or env) and must be refused. Non-trivial: every case; distinct = distinct JSON documents.".into()
     }
     fn assumptions(&self) -> Vec<String> {
         vec![
@@ -394,7 +418,7 @@ impl Property for C16 {
         }
     }
     fn required_features(&self, _tier: Tier) -> Vec<String> {
-        ["encoding/Int:0x-16-bytes-be", "encoding/Int:json-number", "encoding/Bytes:envelope-base64", "encoding/Address:bech32", "encoding/UtxoRef:txid#index", "requests/ok", "requests/err", "requests/param-via-env", "requests/undeclared-extra", "requests/corrupted-envelope"]
+        ["encoding/Int:0x-16-bytes-be", "encoding/Int:json-number", "encoding/Bytes:envelope-base64", "encoding/Address:bech32", "encoding/UtxoRef:txid#index", "requests/ok", "requests/err", "requests/param-via-env", "requests/undeclared-extra", "requests/corrupted-envelope", "requests/ill-formed-value-via-env", "requests/ill-formed-value-via-args"]
             .iter()
             .map(|s| s.to_string())
             .collect()
